@@ -44,6 +44,7 @@ inductive GT where
   | polygon (g : GT)                               -- Polygon(<coordinates of g>)
   | clipRect (g : GT) (xmin ymin xmax ymax : Bnd)  -- clip_by_rect(g, xmin, ymin, xmax, ymax)
   | refine (g : GT)                                -- refine_cross_section(g)
+  | dedupe (g : GT) (rel : Expr)                   -- remove_repeated_points(g, tolerance=rel * g.length)
   deriving Repr, DecidableEq, Inhabited
 
 /-- what the checks measure on a geometry -/
@@ -95,6 +96,7 @@ structure Sig (α G : Type) where
   polygon : G → G
   clipRect : G → Ext α → Ext α → Ext α → Ext α → G
   refine : G → G
+  dedupe : G → α → G
   measure : G → Meas → α
   isValid : G → Bool
 
@@ -120,6 +122,7 @@ def GT.eval (S : Sig α G) (ρ : String → α) : GT → G
   | .polygon g => S.polygon (g.eval S ρ)
   | .clipRect g b0 b1 b2 b3 => S.clipRect (g.eval S ρ) (b0.eval ρ) (b1.eval ρ) (b2.eval ρ) (b3.eval ρ)
   | .refine g => S.refine (g.eval S ρ)
+  | .dedupe g r => S.dedupe (g.eval S ρ) (r.eval ρ)
 
 /-- the scalar environment extended by the measurements of a program -/
 def measEnv (S : Sig α G) (ρ : String → α) : List (String × GT × Meas) → String → α
@@ -155,6 +158,7 @@ def GT.mapSrc (f : Src → Src) : GT → GT
   | .polygon g => .polygon (g.mapSrc f)
   | .clipRect g b0 b1 b2 b3 => .clipRect (g.mapSrc f) b0 b1 b2 b3
   | .refine g => .refine (g.mapSrc f)
+  | .dedupe g r => .dedupe (g.mapSrc f) r
 
 def Cond.mapSrc (f : Src → Src) : Cond → Cond
   | .lt a b => .lt a b
@@ -271,6 +275,7 @@ def VL (contour : Src → List (Pt α)) (valid : List (Pt α) → Bool) : Sig α
   polygon := closeRing
   clipRect := clipRectVL
   refine := fun g => g
+  dedupe := fun g _ => g
   measure := measVL
   isValid := valid
 
